@@ -299,6 +299,10 @@ func (r *runner) runPool(f []string) (out string) {
 		if e := recover(); e != nil {
 			out = fmt.Sprintf("panic %v", e)
 		}
+		// monitor-only lines: the model says `mon`, what follows ` ## ` is for the monitors
+		if strings.HasPrefix(out, "mon ") {
+			out = "mon ## " + out[4:]
+		}
 	}()
 	if len(f) < 2 {
 		return "bad-op"
